@@ -280,6 +280,13 @@ func (tst *tsTable) flush(snapshot *snapshot, flushCh chan *flusherIntroduction)
 func (tst *tsTable) persistSnapshot(snapshot *snapshot) {
 	var partNames []string
 	for i := range snapshot.parts {
+		// Only file parts are named. A memory part has nothing on disk yet, and
+		// its later flush writes the core part and the sidx parts one after the
+		// other: a manifest that already names the id would make a crash between
+		// the two serve the core part without its index entries.
+		if snapshot.parts[i].mp != nil {
+			continue
+		}
 		partNames = append(partNames, partName(snapshot.parts[i].ID()))
 	}
 	tst.mustWriteSnapshot(snapshot.epoch, partNames)
